@@ -290,9 +290,12 @@ class Registry(object):
                     return args[i].value
                 return default
             hide = ()
+            local = False
             for kw in call.keywords:
                 if kw.arg == 'hide':
                     hide = tuple(ast.literal_eval(kw.value))
+                if kw.arg == 'local':
+                    local = bool(ast.literal_eval(kw.value))
             n_before = sum(len(x) for x in (c.requires, c.ensures, c.raises, c.exit_hints)) + sum(len(v) for v in c.invariants.values()) + sum(len(v) for v in c.loop_hints.values())
             if k == 'requires':
                 c.requires.append(Clause('requires', args[0], lab(1, 'pre%d' % len(c.requires)), st.lineno))
@@ -342,6 +345,10 @@ class Registry(object):
                     c.options[kw.arg] = ast.literal_eval(kw.value)
             else:
                 raise SyntaxError('%s:%d: unknown clause %s' % (path, st.lineno, k))
+            if local:
+                for lst in list(c.invariants.values()):
+                    if lst and lst[-1].lineno == st.lineno:
+                        lst[-1].local = True
             if hide:
                 for lst in [c.requires, c.ensures, c.raises, c.exit_hints] + list(c.invariants.values()) + list(c.loop_hints.values()) + list(c.cuts.values()):
                     if lst and lst[-1].lineno == st.lineno:
